@@ -29,6 +29,11 @@ for _p in ("C01", "C02", "C03", "C04", "C05", "C06", "C07", "C08", "C15", "C19")
     PROPS[_p] = {"pkgs": [(".", "TestVerif_" + _p)], "trusted_base": _RELAY_TB, "assumptions": []}
 # C04 also covers the RFC 6062 part: the multi-allocation TCP-relay histories judged by the isolation predicate
 PROPS["C04"]["pkgs"] = [(".", "TestVerif_C04"), (".", "TestVerif_C04TCP")]
+# C15 also judges the forced teardown schedules (threads parked inside lifecycle callbacks) of the allocation package
+PROPS["C15"]["pkgs"] = [(".", "TestVerif_C15"), ("./internal/allocation", "TestVerif_C15TD")]
+PROPS["C15"]["trusted_base"] = _RELAY_TB + [
+    "slow-callback teardown: the forced schedules of harness/allocation (threads parked in the Created callbacks, timers fired by the "
+    "virtual clock) are judged on their observations alone by Check/C15TdCheck.v; there is no universal theorem for that predicate (partial)"]
 PROPS["C04"]["trusted_base"] = _RELAY_TB + [
     "TCP relay part: peer and data connections are in-memory streams; dial outcomes and the server's random connection ids are "
     "inputs of Model/TcpRelay.v (as for C16)"]
